@@ -59,6 +59,10 @@ def generate(rng, tier):
         twin_ops = [scen.cmd("create", "@R/" + a, *fm)] * rng.randint(1, 2) + [{"op": "copy_tree", "src": a, "dst": b, "fault": "history_copied"}]
     ops, info = scen.gen_history_ops(rng, tree, n_gens=rng.randint(1, 4), nested=nested, p_sf=0.15, p_n=0.1,
                                      p_edit=0.15, edit_kinds=("add", "touch"), formats_hi=2)
+    if rng.random() < 0.15:
+        # the last run on the tree was interrupted inside a write: its temporary file is still lying in an ascmhl folder
+        # (the history itself is intact); commands that refuse a tampered history must leave that file alone as well
+        ops.append(dict(scen.cmd("create", "@R", "-h", "md5"), kill={"at": rng.choice([3, 4, 5, 7, 9, 12, 16]), "mode": "after"}))
     return {"world": env, "ops": twin_ops + ops, "triples": "all" if tier == "thorough" else "sample",
             "triple_seed": rng.getrandbits(32)}
 
